@@ -64,7 +64,10 @@ TEXT = {
            "rewired parent, break filter), gate tree -> node logic, logic "
            "block state, merge validation against predecessor sets, "
            "lock-step reshaping of the per-path lists and index maps, the "
-           "multiset observation. Decides the "
+           "multiset observation, the dispatch of the main walk loop and of "
+           "the merge-point handler (loop-carried state described by its "
+           "value on loop entry), the break filter acts only on events of "
+           "the loop (defect D9 found and repaired). Decides the "
            "plumbing, not the heuristics' language inclusion.",
     "C04": "Decides the four structural premises that make chunked learning "
            "equal one-shot learning at model level: stale-flag typestate on "
@@ -74,7 +77,9 @@ TEXT = {
            "copy, every graph of a stream is ingested with its dummy start "
            "link, every flag-guarded cache is marked stale by every write, "
            "the model-file classes pass names through unchanged, the "
-           "observation keeps its counts. Diagram-level "
+           "observation keeps its counts, loaders store every record under "
+           "its own key, no memoised function hands out model objects. "
+           "Diagram-level "
            "equivalence is not decided.",
     "C05": "Decides totality/pairing/balance of the emission tables, that "
            "every emitted keyword occurs in the repository's own corpus with "
@@ -88,7 +93,8 @@ TEXT = {
            "connected, the dummy start / end of a loop body mirror the boundary "
            "evidence, pop / partial merge keep per-path lists and index maps "
            "in step (defect D7 found and repaired), node creation and the "
-           "activity line. Block closure "
+           "activity line, the dispatch of the main walk loop, rendering "
+           "never writes to the diagram it reads. Block closure "
            "as a function of graph shape is not decided.",
     "C07": "Decides the recursion scheme of loop extraction (every cyclic "
            "SCC replaced, body decomposed recursively on a private copy, "
@@ -100,7 +106,9 @@ TEXT = {
            "recorded before the cut, parent rewiring keeps edges and "
            "successor / predecessor sets in step, the loop node inherits the "
            "outside evidence of start, end and break events, break events "
-           "connected to the exit are replaced by dummy breaks). "
+           "connected to the exit are replaced by dummy breaks and only "
+           "events of the loop count as such (defect D9 found and "
+           "repaired), break handlers run before pruning). "
            "Classification "
            "of loop components is value-dependent and not decided.",
     "C08": "Decides the structural clauses of the sequencing rules: overlap "
@@ -136,10 +144,13 @@ TEXT = {
            "identified by how they are bound), a broken trace is skipped "
            "without ending the stream, session scope of yields, filter "
            "algebra, child-link joins on a column that is a key on its own, one "
-           "name per trace before grouping.",
+           "name per trace before grouping, the row stream is one ordered "
+           "query.",
     "C13": "Only the skip/validation clause: a record that fails validation "
            "is skipped per record without aborting the stream, the three "
-           "field tables agree, exactly-one-of validators, a yielded span is "
+           "field tables agree and the event model neither rejects nor "
+           "rewrites a record they accept, exactly-one-of validators, a "
+           "yielded span is "
            "the one built from the current record, the input stream is never "
            "rewound between two yields, single-pass parameters are traversed "
            "once, file iteration skeleton; and one "
